@@ -596,9 +596,50 @@ async fn lowlevel_batch(zone: &Zone, mdl: &Mdl, who: &str, names: &[String]) {
     if !acquire(mdl, who) {
         return;
     }
+    // One handle may publish several versions in a row (what a multi-part
+    // IXFR does), and may commit without having opened the zone at all.
+    for round in 0..3 {
+        let mut working: Content = mdl.borrow().committed.last().unwrap().clone();
+        if sim::chance("writer.touch", 1, 8) {
+            sim::stat("probe.commit_without_open");
+            let bump = sim::chance("writer.bump", 1, 2);
+            if bump {
+                let old = working.clone();
+                apply_bump(&old, &mut working);
+            }
+            {
+                let mut m = mdl.borrow_mut();
+                m.committed.push(working.clone());
+                m.commits += 1;
+            }
+            let res = w.commit(bump).await;
+            ev!("{} COMMIT without open, bump={} -> index {}", who, bump, mdl.borrow().committed.len() - 1);
+            if res.is_err() {
+                sim::violation(P9, "commit", "commit-failed", format!("{} commit returned {:?}", who, res.err()));
+            }
+            step().await;
+            if sim::stopped() {
+                return;
+            }
+            continue;
+        }
+        if !lowlevel_round(w.as_mut(), mdl, who, names, working, round).await {
+            break;
+        }
+        if sim::stopped() {
+            return;
+        }
+    }
+    release(mdl);
+    drop(w);
+    step().await;
+}
+
+/// Open, edit, then commit or abandon. Returns whether the handle goes on
+/// to another round (committed and chosen to).
+async fn lowlevel_round(w: &mut dyn WritableZone, mdl: &Mdl, who: &str, names: &[String], mut working: Content, round: usize) -> bool {
     let create_diff = sim::chance("writer.diff", 1, 2);
     let root = w.open(create_diff).await.expect("open");
-    let mut working: Content = mdl.borrow().committed.last().unwrap().clone();
     ev!("{} opened (diff={})", who, create_diff);
     let n_ops = sim::draw("writer.n_ops", 7);
     let abort_at = if sim::chance("writer.abort", 1, 4) { Some(sim::draw("writer.abort_at", n_ops + 1)) } else { None };
@@ -672,7 +713,7 @@ async fn lowlevel_batch(zone: &Zone, mdl: &Mdl, who: &str, names: &[String]) {
         }
         step().await;
         if sim::stopped() {
-            return;
+            return false;
         }
     }
     drop(root);
@@ -680,8 +721,7 @@ async fn lowlevel_batch(zone: &Zone, mdl: &Mdl, who: &str, names: &[String]) {
         ev!("{} ABORT (drop without commit)", who);
         sim::stat("fault.writer_abort");
         mdl.borrow_mut().aborts += 1;
-        release(mdl);
-        drop(w);
+        false
     } else {
         let bump = sim::chance("writer.bump", 1, 2);
         if bump {
@@ -699,10 +739,13 @@ async fn lowlevel_batch(zone: &Zone, mdl: &Mdl, who: &str, names: &[String]) {
         if res.is_err() {
             sim::violation(P9, "commit", "commit-failed", format!("{} commit returned {:?}", who, res.err()));
         }
-        release(mdl);
-        drop(w);
+        if round == 2 || !sim::chance("writer.same_handle", 1, 4) {
+            return false;
+        }
+        sim::stat("probe.handle_reused_after_commit");
+        step().await;
+        true
     }
-    step().await;
 }
 
 async fn updater_batch(zone: &Zone, mdl: &Mdl, who: &str, names: &[String]) {
